@@ -227,10 +227,6 @@ theorem runs_intValues_wrap (ch : Choices) (level : Nat) (builtin : Bool) (i kin
 
 /-! ### canonicalized octahedron transform -/
 
-/-- an entry of a normal attribute's portable data: a canonical point of the grid -/
-def OctaEntry (t : OctaT) (e : List Int) : Prop :=
-  ∃ a b, e = [a, b] ∧ Octa.inGrid t (a, b) ∧ Octa.canonical t (a, b)
-
 /-- delta prediction with the canonicalized octahedron transform (normals) -/
 theorem runs_intValues_octa (ch : Choices) (level : Nat) (builtin : Bool) (i n q : Nat)
     (portable : List Int) (body : Bytes) (v : Nat) (hv : bsVersion 2 0 ≤ v) (t : OctaT)
